@@ -21,6 +21,7 @@ def run_property(prop: str, tier: str) -> int:
         return 3
     try:
         mod.run(sess)
+        infrastructure(sess)
     except Unsupported as exc:
         sess.errors.append(f'unsupported: {exc}')
     except EngineError as exc:
@@ -29,6 +30,27 @@ def run_property(prop: str, tier: str) -> int:
         traceback.print_exc()
         sess.errors.append(f'engine crash: {type(exc).__name__}: {exc}')
     return sess.finish()
+
+
+# the layers each property stands on (contracts/infra.py): database plumbing / WN-LMF format constants
+DB_PROPS = {'C01', 'C03', 'C04', 'C05', 'C06', 'C07', 'C08', 'C09', 'C10', 'C11', 'C12', 'C17', 'C18', 'C19', 'C20'}
+FORMAT_PROPS = {'C01', 'C02', 'C03', 'C07', 'C11', 'C16', 'C20'}
+WRAPPER_PROPS = {'C04', 'C08', 'C09', 'C10', 'C17'}
+
+
+def infrastructure(sess: Session):
+    from contracts import infra
+    obs = []
+    if sess.prop in DB_PROPS:
+        obs += infra.db_obligations(sess.prop)
+    if sess.prop in FORMAT_PROPS:
+        obs += infra.format_obligations(sess.prop)
+    if sess.prop in WRAPPER_PROPS:
+        obs += infra.wrapper_obligations(sess.prop)
+    seen = {r.ob.name for r in sess.results}
+    for ob in obs:
+        if ob.name not in seen:
+            sess.check(ob)
 
 
 def replay(path: str) -> int:
